@@ -29,10 +29,16 @@ import (
 // between an arming attempt and the next one is reported as WALReset.
 
 func init() {
-	core.Register(&core.Prop{ID: "C06", Bubble: false, Gen: c06Gen, Run: c06Run})
+	// Bubble: the store-level stratum needs the fake clock (raft timers); the
+	// db-level engine does not care (its only waiting is inside SQLite's busy
+	// handler, which sleeps in C).
+	core.Register(&core.Prop{ID: "C06", Bubble: true, Gen: c06Gen, Run: c06Run})
 }
 
 func c06Gen(r *core.Rand, tier string) any {
+	if r.Bool(0.08) {
+		return c06GenStore(r)
+	}
 	return walsim.Gen(r, walsim.GenOpts{MinOps: 20, MaxOps: 60})
 }
 
@@ -54,6 +60,10 @@ func c06Run(c *core.Ctx, raw json.RawMessage) {
 		return
 	}
 	c.Rng = core.NewRand(sc.Seed)
+	if sc.Mode == "store" {
+		c06RunStore(c, &sc)
+		return
+	}
 	st := &c06State{c: c}
 	e := &walsim.Engine{C: c, Sc: &sc}
 	e.H.AfterAttempt = st.afterAttempt
@@ -170,9 +180,15 @@ func (st *c06State) afterAttempt(e *walsim.Engine, a *walsim.Attempt) {
 	st.outcomes = append(st.outcomes, tag)
 
 	// ---- staging directory discipline
+	// A checkpoint that SQLite reported busy before all pages were moved has
+	// failed, whatever the manager returned.
+	if a.Meta != nil && !a.Full && a.Meta.Code != 0 && a.Meta.Moved < a.Meta.Pages && len(a.NewFiles) != 0 {
+		c.Violate("failed-attempt-left-segment", "op %d: checkpoint was busy with only %d of %d pages moved (manager returned err=%v) but %d file(s) were left in the staging directory", e.OpIdx, a.Meta.Moved, a.Meta.Pages, a.Err, len(a.NewFiles))
+		return
+	}
 	if a.Err != nil {
 		if len(a.NewFiles) != 0 {
-			c.Violate("failed-attempt-left-segment", "op %d: attempt failed (%v) but left %v in the staging directory", e.OpIdx, a.Err, a.NewFiles)
+			c.Violate("failed-attempt-left-segment", "op %d: attempt failed (%v) but left %d file(s) in the staging directory", e.OpIdx, a.Err, len(a.NewFiles))
 		}
 		return
 	}
@@ -192,7 +208,7 @@ func (st *c06State) afterAttempt(e *walsim.Engine, a *walsim.Attempt) {
 		return
 	}
 	if len(a.NewFiles) != 2 || a.Segment == "" {
-		c.Violate("segment-missing", "op %d: successful attempt but staging directory gained %v", e.OpIdx, a.NewFiles)
+		c.Violate("segment-missing", "op %d: successful attempt but staging directory gained %d file(s), want a WAL and its checksum", e.OpIdx, len(a.NewFiles))
 		return
 	}
 	seg, err := os.ReadFile(a.Segment)
